@@ -152,6 +152,12 @@ fn verif_c11_path() {
 //         | `rejected:<routing>`: some shard returned DuplicateBytes; routing = `on-picker-shard` if on
 //           every helper exactly the shards `shard_picker(tag of a repeated report)` failed
 //         | other text for anything else (timeouts, other errors)
+//   c11.big <count> <i> <j>
+//        ONE shard receives `count` encrypted reports, pairwise distinct except that the report at position j
+//        is a byte-identical copy of the one at position i (count > 4096 with i, j in different 4096-chunks:
+//        a per-chunk validator never compares them). Expected: DuplicateBytes before the protocol starts, so
+//        the case is fast on a correct tree; anything else within 75 s (`accepted`, `timeout:…`) is the failing
+//        outcome accepted-or-not-rejected.
 // ---------------------------------------------------------------------------------------------
 pub mod c11_e2e {
     use std::{collections::BTreeSet, sync::Arc, time::Duration};
@@ -197,7 +203,7 @@ pub mod c11_e2e {
             .collect()
     }
 
-    async fn run_n<const N: usize>(lists: Vec<Vec<usize>>) -> String {
+    async fn run_n<const N: usize>(lists: Vec<Vec<usize>>, reject_deadline_s: u64) -> String {
         let count = lists.iter().flatten().max().map_or(0, |m| m + 1);
         let mut rng = StdRng::seed_from_u64(4242);
         let key_registry = Arc::new(KeyRegistry::<KeyPair>::random(1, &mut rng));
@@ -246,7 +252,7 @@ pub mod c11_e2e {
         let mut oks = 0usize;
         let mut other: Vec<String> = Vec::new();
         // generous: the machine may be heavily loaded; nothing below depends on speed
-        let mut deadline = tokio::time::Instant::now() + Duration::from_secs(if expect_reject { 150 } else { 400 });
+        let mut deadline = tokio::time::Instant::now() + Duration::from_secs(if expect_reject { reject_deadline_s } else { 400 });
         let total = 3 * N;
         let mut done = 0usize;
         let mut grace = false;
@@ -285,17 +291,26 @@ pub mod c11_e2e {
 
     pub fn exec(req: &str) -> String {
         let t: Vec<&str> = req.split(' ').collect();
+        if t[0] == "c11.big" {
+            let count: usize = t[1].parse().unwrap();
+            let i: usize = t[2].parse().unwrap();
+            let j: usize = t[3].parse().unwrap();
+            assert!(i < j && j < count);
+            let list: Vec<usize> = (0..count).map(|k| if k == j { i } else { k }).collect();
+            // report `j` itself is never submitted, but `run_n` creates reports 0..=max index
+            return block_on_timeout(300, run_n::<1>(vec![list], 75)).unwrap_or_else(|e| e);
+        }
         assert_eq!(t[0], "c11.e2e");
         let n: usize = t[1].parse().unwrap();
         let lists: Vec<Vec<usize>> = t[2].split('/').map(|l| parse_nat_list::<usize>(l)).collect();
         assert_eq!(lists.len(), n);
         block_on_timeout(420, async move {
             match n {
-                1 => run_n::<1>(lists).await,
-                2 => run_n::<2>(lists).await,
-                3 => run_n::<3>(lists).await,
-                4 => run_n::<4>(lists).await,
-                5 => run_n::<5>(lists).await,
+                1 => run_n::<1>(lists, 150).await,
+                2 => run_n::<2>(lists, 150).await,
+                3 => run_n::<3>(lists, 150).await,
+                4 => run_n::<4>(lists, 150).await,
+                5 => run_n::<5>(lists, 150).await,
                 _ => panic!("harness: unsupported shard count {n}"),
             }
         })
@@ -325,6 +340,19 @@ pub mod c11_e2e {
         }
         if thorough {
             v.push(format!("c11.e2e 1 {}", show(&base(1, 9))));
+        }
+        // more reports on one shard than any bounded validation batch: the first and the last report are
+        // byte-identical (4097 reports: positions 0 and 4096)
+        v.push("c11.big 4097 0 4096".to_string());
+        // both copies beyond the first 4096 tags
+        v.push("c11.big 4099 4097 4098".to_string());
+        if thorough {
+            // adjacent across the 4096 boundary, far apart across two boundaries, both inside the second chunk
+            v.push("c11.big 4098 4095 4096".to_string());
+            v.push("c11.big 8200 100 8199".to_string());
+            v.push("c11.big 4200 4100 4199".to_string());
+            // a smaller power-of-two boundary
+            v.push("c11.big 1030 0 1024".to_string());
         }
         v
     }
